@@ -8,6 +8,9 @@ open Driver ScionTime.Collect
       (id = position); tie = successes due exactly at max(D,t0) that the collector received
       before it saw the cancellation (scheduler choice observed by the harness).
       -> ok ret=<t> front=[ids] tail=<untouched> last=<t> leak=0|deadlock
+  col.entry <len(ms)> <len(refclks)> <busy 0|1>   one call on a client that is idle / busy;
+      then (after an accepted call has returned) one more well-formed call
+      -> ok <len-panic|refused|accepted> next=<accepted|refused>
   col.guard (e|l)+   enter / leave events on one ReferenceClockClient
       -> ok <accepted|refused|left> …
   The model side runs the transition system `Collect.step` under the schedule that virtual
@@ -113,6 +116,17 @@ def stepD (_ : Unit) (toks : List String) : Unit × String :=
           ((), s!"ok ret={s.retAt} front={fmtIntList front} tail={countTail s.ms ms0 s.j} last={s.now} leak={leak}")
       else ((), "bad-op")
     | _, _, _, _ => ((), "bad-op")
+  | ["col.entry", a, b, g] =>
+    match parseNat? a, parseNat? b, parseNat? g with
+    | some a, some b, some g =>
+      if g ≤ 1 then
+        let r := entry a b g
+        let after := (guardStep (if r.2 = .accepted then 0 else r.1) .enter).2  -- next caller, once an accepted call has left
+        let f : EntryRes → String := fun x => match x with
+          | .lenPanic => "len-panic" | .refused => "refused" | .accepted => "accepted"
+        ((), s!"ok {f r.2} next={fmtGuard after}")
+      else ((), "bad-op")
+    | _, _, _ => ((), "bad-op")
   | "col.guard" :: evs =>
     match evs.mapM parseEv with
     | some evs =>
